@@ -269,9 +269,11 @@ PROPS.update({
     "C08": gw("C08",
               "Lean theorems c08_auth_enabled_waits, c08_plain / c08_plain_sent, c08_malformed, c08_unknown_method, c08_auth_disabled, c08_configured, c08_auth_ignored about "
               "the model's connect exchange for ALL states and inputs; ALL RUNS: c08_no_connect_without_auth (authentication enabled: after ANY sequence of timed events without an "
-              "AUTH datagram no MQTT CONNECT has been written; invariant AllAwait carried through every model function, Lemmas/GwAuth.lean); the rest of the whole-exchange "
+              "AUTH datagram no MQTT CONNECT has been written; invariant AllAwait carried through every model function, Lemmas/GwAuth.lean) and "
+              "c08_configured_credentials_in_every_connect (authentication disabled: after ANY sequence of timed events, AUTH packets of any kind included, every MQTT CONNECT "
+              "written carries exactly the configured credentials; invariant J / frame FC, Lemmas/GwCreds.lean); the rest of the whole-exchange "
               "statement is checked by the monitor Spec.c0809; tie: gateway suite (connect profile)",
-              "theorems c08_* (one-step, all states); monitor Spec.c0809 (C08 rules) on implementation traces"),
+              "theorems c08_* (one-step, all states) + two all-runs theorems; monitor Spec.c0809 (C08 rules) on implementation traces"),
     "C09": gw("C09",
               "Lean theorems c09_will_topicreq, c09_nowill, c09_willtopic(_ignored), c09_will_fields, c09_willmsg(_ignored), c09_one_connect, c09_connack(_ignored), "
               "c09_zero_keepalive about the model's connect exchange for ALL states and inputs; ALL RUNS: c09_connects_bounded (after ANY event sequence the number of MQTT "
